@@ -27,6 +27,7 @@ pub fn list() -> Vec<(&'static str, super::Scenario)> {
         ("wake_stale_entry", wake_stale_entry),
         ("indep_race", indep_race),
         ("indep_despawn", indep_despawn),
+        ("panic_many", panic_many),
         ("sync_wipe", sync_wipe),
     ]
 }
@@ -125,6 +126,12 @@ fn sync_states(cfg: &Cfg) {
     for i in 0..n {
         let (w1, q1) = (w.clone(), q.clone());
         hs.push(spawn(move || { w1.sync(&q1, &format!("S{}", i + 1), Body::plain()); }));
+    }
+    // `racer`=1: one more thread queues a desync on the same object at an arbitrary moment (e.g. between the current owner
+    // handing the queue back and its rescheduling call)
+    if cfg.opt("racer", 0) == 1 {
+        let (w1, q1) = (w.clone(), q.clone());
+        hs.push(spawn(move || { w1.desync(&q1, "RACE-D", Body::plain()); }));
     }
     // environment
     if st == 3 || st == 4 {
@@ -952,6 +959,13 @@ fn suspend(cfg: &Cfg) {
         }));
     }
     w.desync(&o, "BEFORE", Body::plain());
+    // `race`=1: another thread schedules an operation at the same time as the suspend request is made: it lands either
+    // before the request (and has completed when the suspension is reported) or after it (and is held until the resume)
+    let mut racer = None;
+    if cfg.opt("race", 0) == 1 {
+        let (w1, o1) = (w.clone(), o.clone());
+        racer = Some(spawn(move || { w1.desync(&o1, "RACE", Body::plain()); }));
+    }
     let sop = w.rec.inv("SUSPEND", o.id(), Kind::Suspend);
     let susp = scheduler().suspend(&q);
     w.rec.ret(sop);
@@ -983,10 +997,23 @@ fn suspend(cfg: &Cfg) {
         }
     };
     check_held("at resolution");
+    let race_at_resolution = w.rec.all().into_iter().find(|r| r.name == "RACE").map(|r| (r.starts.len(), r.ends.len()));
+    if let Some((s, e)) = race_at_resolution {
+        if s != e {
+            rt::violation("SUSPEND-EARLY RACE (scheduled concurrently with the suspend request) was in the middle of running when the suspension was reported".into());
+        }
+    }
     w.desync(&o, "AFTER2", Body::plain());
     // let everybody else run as far as they can: nothing may start
     rt::quiesce();
     check_held("at quiescence while suspended");
+    if let Some(r) = racer.take() {
+        join(r, "racer");
+    }
+    let race_suspended = w.rec.all().into_iter().find(|r| r.name == "RACE").map(|r| (r.starts.len(), r.ends.len()));
+    if race_at_resolution.is_some() && race_suspended != race_at_resolution {
+        rt::violation("SUSPEND-LEAK RACE (scheduled concurrently with the suspend request) ran while the queue was suspended".into());
+    }
     let resumed_at = rt::tick();
     if resume_mode == 0 {
         resumer.resume();
@@ -1150,6 +1177,85 @@ fn panic_contain(cfg: &Cfg) {
     }
     expect_idle(&good);
     for o in &extra {
+        expect_idle(o);
+    }
+    check_no_unplanned_panics_except(&["on a panicked queue"]);
+    shutdown();
+}
+
+/// C10 + C15 + C03: `pool` (>= 2) pool threads each run a blocking job; all but one of those jobs then panic (so several pool
+/// threads die between two scheduling calls) while the remaining one stays blocked.  Work on a fresh object must still run
+/// while that job is blocked, and afterwards the pool has its full capacity again.
+///  keep: which of the jobs stays blocked (and does not panic)
+fn panic_many(cfg: &Cfg) {
+    let pool = cfg.pool();
+    setup(pool);
+    let keep = cfg.opt("keep", pool as i64 - 1) as usize;
+    let w = World::new();
+    w.prelude(cfg);
+    let mut objs = vec![];
+    let mut bgs = vec![];
+    for i in 0..pool {
+        let o = w.raw();
+        let bg = BGate::new();
+        let body = Body { bgate: Some(bg.clone()), panic: i != keep, ..Body::default() };
+        w.desync(&o, &if i == keep { "BLK".to_string() } else { format!("BOOM{}", i) }, body);
+        rt::quiesce();
+        objs.push(o);
+        bgs.push(bg);
+    }
+    for (i, bg) in bgs.iter().enumerate() {
+        if i != keep {
+            bg.open();
+        }
+    }
+    rt::quiesce();
+    // a healthy object is used while one job is still blocked and the dead threads have not been reaped yet
+    let f = w.raw();
+    let (w1, f1) = (w.clone(), f.clone());
+    let t = spawn(move || {
+        w1.desync(&f1, "F1", Body::plain());
+    });
+    rt::quiesce();
+    if !w.rec.all().iter().any(|o| o.name == "F1" && !o.ends.is_empty()) {
+        rt::violation(format!("INDEP F1 on a healthy object did not run while one object was blocked, after {} pool thread(s) had died in panics (pool maximum {})", pool - 1, pool));
+    }
+    bgs[keep].open();
+    join(t, "healthy-scheduler");
+    rt::quiesce();
+    // capacity: as many blocking jobs as the maximum all get a thread
+    let mut caps = vec![];
+    let mut cbgs = vec![];
+    for i in 0..pool {
+        let o = w.raw();
+        let bg = BGate::new();
+        w.desync(&o, &format!("CAP{}", i), Body::blocking(&bg));
+        caps.push(o);
+        cbgs.push(bg);
+    }
+    rt::quiesce();
+    for i in 0..pool {
+        let name = format!("CAP{}", i);
+        if !w.rec.all().iter().any(|r| r.name == name && !r.starts.is_empty()) {
+            rt::violation(format!("PANIC-CAPACITY only {} of {} blocking jobs are running after {} pool threads panicked: the pool did not replace the threads it lost", i, pool, pool - 1));
+            break;
+        }
+    }
+    for bg in &cbgs {
+        bg.open();
+    }
+    rt::quiesce();
+    for r in w.rec.all() {
+        if r.name.starts_with("BOOM") {
+            continue;
+        }
+        if r.accepted == Some(true) && (r.starts.len() != 1 || r.ends.len() != 1) {
+            rt::violation(format!("STRANDED healthy operation {} ran {} times / finished {} times after other objects' panics", r.name, r.starts.len(), r.ends.len()));
+        }
+    }
+    expect_idle(&f);
+    expect_idle(&objs[keep]);
+    for o in &caps {
         expect_idle(o);
     }
     check_no_unplanned_panics_except(&["on a panicked queue"]);
